@@ -297,3 +297,113 @@ func (g *Gen) addAppendDemo() *S {
 	p.Funcs = append(append([]*Func{{Name: name, Results: []*Ty{TInt}, Body: body}}, fns...), p.Funcs...)
 	return pr(sS("append"), &E{K: "call", Fn: name, Ty: TInt, NRes: 1})
 }
+
+// addMapRangeDemo: range over maps. Go leaves the order unspecified, so every loop body is
+// order-insensitive (commutative accumulation; writes only to the current key or to one fixed key that the
+// accumulation excludes; a key created while a range runs is likewise excluded); what remains observable is
+// what Go does specify: every entry present at the start and not deleted before it is reached is
+// produced exactly once, with its current value.
+func (g *Gen) addMapRangeDemo() *S {
+	r := g.r
+	p := g.prog
+	tag := fmt.Sprintf("%d", len(p.Funcs))
+	strKeys := r.Intn(2) == 0
+	kt := TInt
+	if strKeys {
+		kt = TString
+	}
+	mt := MapOf(kt, TInt)
+	n := 3 + r.Intn(3)
+	keyE := func(i int) *E {
+		if strKeys {
+			return sS([]string{"a", "bb", "c", "dd", "eee", "f"}[i])
+		}
+		return lit(TInt, int64(i*3+1))
+	}
+	mkLit := func() *E {
+		e := &E{K: "maplit", Ty: mt}
+		for i := 0; i < n; i++ {
+			e.Keys = append(e.Keys, keyE(i))
+			e.Args = append(e.Args, lit(TInt, int64(r.Intn(9))))
+		}
+		return e
+	}
+	kv, vv := v("k", kt), v("x", TInt)
+	add := func(name string, e *E) *S { return &S{K: "opassign", Lhs: []*E{v(name, TInt)}, Op: "+", E: e} }
+	kAcc := func() *S {
+		if strKeys {
+			return add("ka", lenOf(kv))
+		}
+		return add("ka", kv)
+	}
+	mget := func(m string, k *E) *E { return &E{K: "mapget", Ty: TInt, X: v(m, mt), I: k} }
+	del := func(m string, k *E) *S { return &S{K: "delete", M: v(m, mt), Key: k} }
+	rng := func(m, k, x string, body ...*S) *S { return &S{K: "range", X: v(m, mt), KName: k, VName: x, Body: body} }
+	iff := func(c *E, then ...*S) *S { return &S{K: "if", Cond: c, Then: then} }
+	k0 := r.Intn(n)
+	body := []*S{
+		dcl("m", mkLit()), dcl("s", lit(TInt, 0)), dcl("c", lit(TInt, 0)), dcl("ka", lit(TInt, 0)),
+		rng("m", "k", "x", add("s", vv), add("c", lit(TInt, 1)), kAcc()),
+		pr(sS("mr1"), v("s", TInt), v("c", TInt), v("ka", TInt)),
+	}
+	blocks := [][]*S{
+		{ // delete the current entry when its value is even
+			rng("m", "k", "x", iff(bin("==", TBool, bin("%", TInt, vv, lit(TInt, 2)), lit(TInt, 0)), del("m", kv))),
+			pr(sS("mr2"), lenOf(v("m", mt)), mget("m", keyE(0)), mget("m", keyE(1)), mget("m", keyE(n-1))),
+		},
+		{ // delete one fixed entry from inside the loop; it is excluded from what is accumulated
+			dcl("t", lit(TInt, 0)),
+			rng("m", "k", "x", iff(bin("!=", TBool, kv, keyE(k0)), add("t", vv)), del("m", keyE(k0))),
+			pr(sS("mr3"), v("t", TInt), lenOf(v("m", mt)), mget("m", keyE(k0))),
+		},
+		{ // update the current entry
+			rng("m", "k", "x", asg(mget("m", kv), bin("+", TInt, bin("*", TInt, vv, lit(TInt, 2)), lit(TInt, 1)))),
+			pr(sS("mr4"), mget("m", keyE(0)), mget("m", keyE(n-1)), lenOf(v("m", mt))),
+		},
+		{ // delete and put back before ranging: still one visit per key
+			del("m", keyE(k0)), asg(mget("m", keyE(k0)), lit(TInt, int64(20+r.Intn(9)))), del("m", keyE((k0+1)%n)),
+			dcl("u", lit(TInt, 0)), dcl("uc", lit(TInt, 0)),
+			rng("m", "_", "x", add("u", vv), add("uc", lit(TInt, 1))),
+			pr(sS("mr5"), v("u", TInt), v("uc", TInt)),
+		},
+		{ // nested ranges over the same map
+			dcl("w", lit(TInt, 0)),
+			rng("m", "k", "x", rng("m", "k2", "x2", iff(bin("!=", TBool, kv, v("k2", kt)), add("w", bin("+", TInt, vv, v("x2", TInt)))))),
+			pr(sS("mr6"), v("w", TInt)),
+		},
+		{ // leave after two rounds; continue
+			dcl("q", lit(TInt, 0)),
+			rng("m", "_", "x", add("q", lit(TInt, 1)), iff(bin("==", TBool, v("q", TInt), lit(TInt, 2)), &S{K: "break"}), iff(bin(">", TBool, vv, lit(TInt, 100)), &S{K: "continue"})),
+			pr(sS("mr7"), v("q", TInt)),
+		},
+		{ // delete every entry from inside the loop
+			rng("m", "k", "", del("m", kv)),
+			pr(sS("mr8"), lenOf(v("m", mt))),
+			rng("m", "k", "x", add("s", bin("+", TInt, vv, lit(TInt, 1000)))),
+		},
+		{ // an entry (deleted before, or never present) is created while the range runs: Go may or may not produce it, so it is
+			// left out of what is accumulated; every other entry is still produced exactly once
+			del("m", keyE(k0)),
+			dcl("t2", lit(TInt, 0)), dcl("c2", lit(TInt, 0)),
+			rng("m", "k", "x",
+				iff(&E{K: "and", Ty: TBool, L: bin("!=", TBool, kv, keyE(k0)), R: bin("!=", TBool, kv, keyE(5))}, add("t2", vv), add("c2", lit(TInt, 1))),
+				iff(bin("==", TBool, v("c2", TInt), lit(TInt, 1)), asg(mget("m", keyE([]int{k0, 5}[r.Intn(2)])), lit(TInt, 0)))),
+			pr(sS("mr10"), v("t2", TInt), v("c2", TInt)),
+			del("m", keyE(5)),
+		},
+		{ // nil and empty maps
+			&S{K: "declzero", Names: []string{"z"}, DeclTy: mt},
+			rng("z", "k", "x", add("s", bin("+", TInt, vv, lit(TInt, 500))), kAcc()),
+			dcl("e", &E{K: "makemap", Ty: mt}),
+			rng("e", "k", "x", add("s", bin("+", TInt, vv, lit(TInt, 700))), kAcc()),
+			pr(sS("mr9"), v("s", TInt), lenOf(v("z", mt)), lenOf(v("e", mt))),
+		},
+	}
+	for _, i := range r.Perm(len(blocks))[:3+r.Intn(4)] {
+		body = append(body, blocks[i]...)
+	}
+	body = append(body, ret(bin("+", TInt, v("s", TInt), lenOf(v("m", mt)))))
+	name := "mapRange" + tag
+	p.Funcs = append([]*Func{{Name: name, Results: []*Ty{TInt}, Body: body}}, p.Funcs...)
+	return pr(sS("maprange"), &E{K: "call", Fn: name, Ty: TInt, NRes: 1})
+}
